@@ -24,6 +24,9 @@ CHECKS = {
  "C07": dict(level="model_checking", design_ref="DESIGN.md §4 C07",
    text="Auto-follows / only-when-demanded / judged-individually formulas over consecutive transitions, including the partial-acceptance code paths transcribed step by step (slice aliasing included); exhaustive on the bounded model with every veto of the auto states' handlers, and evaluated on recorded real executions.",
    technique="TLA+ spec + TLC; trace validation"),
+ "C08": dict(level="fault_enumeration", design_ref="DESIGN.md §4 C08", engine="seq-machine",
+   text="Every handler call of the faulty call (learned from a fault-free dry run: each Exit/Enter/self/state-state/AnyEnter/End/State/AnyState call of each binding, including the auto and Exception transitions it triggers) gets each fault kind - panic(string), panic(error), stall beyond HandlerTimeout - singly and paired with a second fault inside the Exception handlers, each followed by a probe call. spec/Faults.tla models recoverToErr / recoverFinalPhase / Event.IsValid step by step; TLC validates every recorded run against it and evaluates parity, negotiation-fault-frozen, exact final rollback, Exception-carries-message, timeout-reported and no-escape/no-hang on what the real machine did; the same formulas are invariants of the bounded FaultMode model.",
+   technique="fault enumeration over handler positions on the real machine; TLA+ fault model (TLC bounded model + trace validation)"),
  "C11": dict(level="model_checking", design_ref="DESIGN.md §4 C11",
    text="The spec models map-order nondeterminism explicitly (auto-candidate order, topology DFS start order) behind flags; with the ordered variants TLC shows one behaviour per history. The binding re-executes every generated case >= 64 times on fresh machines and requires byte-identical recorded behaviour, and validates the reference executions against the ordered spec (auto order and topology are compared strictly).",
    technique="TLA+ spec with explicit map-order nondeterminism + TLC; repeated re-execution of the real code; trace validation"),
@@ -61,8 +64,8 @@ def main():
                    source_commits=[l.strip() for l in open(os.path.join(ROOT, "hooks_commits.txt")) if l.strip()]
                    if os.path.exists(os.path.join(ROOT, "hooks_commits.txt")) else [],
                    add_only=True),
-        engines=[dict(name="seq-machine", path="spec/Machine.tla spec/Transition.tla spec/Resolver.tla spec/Props.tla spec/MCMachine.tla spec/TraceMachine.tla harness/seqdrv tools/seqcheck.py",
-                      serves_properties=["C01", "C02", "C03", "C05", "C07", "C11", "C14"],
+        engines=[dict(name="seq-machine", path="spec/Machine.tla spec/Faults.tla spec/Transition.tla spec/Resolver.tla spec/Props.tla spec/MCMachine.tla spec/TraceMachine.tla harness/seqdrv tools/seqcheck.py",
+                      serves_properties=["C01", "C02", "C03", "C05", "C07", "C08", "C11", "C14"],
                       kind_free_text="TLA+ specification of the sequential machine checked by TLC; bound to the Go code by trace validation of recorded executions")],
         checks=checks,
         not_applicable=na,
